@@ -81,6 +81,10 @@ pub struct Obj {
     pub destruct_root_seen: bool,
     /// full-width epoch of the last stamp written into the count word (None = never stamped)
     pub stamp_full: Option<u64>,
+    /// oldest real stamp that went into the count word's stamp (cascade merges)
+    pub stamp_min: Option<u64>,
+    /// a never-written stamp field (4-bit value 0) took part in the count word's stamp
+    pub stamp_tainted: bool,
     pub cells: [usize; 2],
     pub ever_unowned: bool,
     pub reclaim_epoch: u64,
@@ -123,6 +127,9 @@ pub struct Soft {
 pub struct Shadow {
     pub objs: Vec<Obj>,
     pub addr2id: BTreeMap<usize, u32>,
+    pub state2id: BTreeMap<usize, u32>,
+    /// per thread: cascade frames (parent, edges still to be processed as (child, link stamp))
+    pub frames: Vec<Vec<(u32, std::collections::VecDeque<(u32, Option<u64>)>)>>,
     pub cell_owner: BTreeMap<usize, u32>,
     /// full-width epoch of the stamp carried by the word currently in a strong cell
     pub cell_stamp: BTreeMap<usize, Option<u64>>,
@@ -180,6 +187,8 @@ impl Shadow {
         Shadow {
             objs: Vec::new(),
             addr2id: BTreeMap::new(),
+            state2id: BTreeMap::new(),
+            frames: vec![Vec::new(); nthreads],
             cell_owner: BTreeMap::new(),
             cell_stamp: BTreeMap::new(),
             holdings: Vec::new(),
@@ -216,7 +225,7 @@ impl Shadow {
     }
 
     pub fn soft(&mut self, prop: &str, signature: &str, detail: String) {
-        let sig = format!("{}/{}", prop, signature);
+        let sig = format!("{}/{}", prop.split(',').next().unwrap_or(prop), signature);
         if self.soft.iter().any(|s| s.signature == sig) {
             return;
         }
@@ -253,6 +262,8 @@ impl Shadow {
             first_failed_upgrade: None,
             destruct_root_seen: false,
             stamp_full: None,
+            stamp_min: None,
+            stamp_tainted: true,
             cells: [0, 0],
             ever_unowned: false,
             reclaim_epoch: 0,
@@ -264,6 +275,7 @@ impl Shadow {
     pub fn register(&mut self, id: u32, addr: usize, state_addr: usize, cells: [usize; 2], strong: i64) {
         crate::alloc::register_block(addr);
         self.addr2id.insert(addr, id);
+        self.state2id.insert(state_addr, id);
         for c in cells {
             self.cell_owner.insert(c, id);
             self.cell_stamp.insert(c, None);
@@ -373,22 +385,23 @@ impl Shadow {
         let seq = sim().seq;
         sim().fold(0xD0, id);
         {
-            let ob = &mut self.objs[o as usize];
+            let ob = &self.objs[o as usize];
             if ob.pop > 0 {
                 let det = format!("pop_edges of #{} ran twice (first at seq {})", o, ob.pop_seq);
                 sim().violation("C04", "double-pop-edges", "double-pop-edges", &det);
             }
+            let held = self.holdings.iter().find(|h| h.obj == o && !h.weak).copied();
             if ob.strong > 0 {
-                let det = format!("#{} destructed ({}) while {} counted strong owner(s) exist", o, path_name(depth), ob.strong);
-                sim().violation("C01", "destruct-while-owned", &format!("destruct-while-owned/{}", path_name(depth)), &det);
+                let det = format!("#{} destructed ({}) while {} counted strong owner(s) exist{}", o, path_name(depth), ob.strong, if held.is_some() { " and a live Snapshot refers to it" } else { "" });
+                sim().violation(if held.is_some() { "C01,C02" } else { "C01" }, "destruct-while-owned", &format!("destruct-while-owned/{}", path_name(depth)), &det);
             }
-        }
-        if let Some(h) = self.holdings.iter().find(|h| h.obj == o && !h.weak) {
-            let det = format!(
-                "#{} destructed ({}) at seq {} inside the critical section of t{} which holds a Snapshot of it (from {}, made at seq {})",
-                o, path_name(depth), seq, h.tid, h.src.name(), h.seq
-            );
-            sim().violation("C02", "destruct-under-snapshot", &format!("destruct-under-snapshot/{}/src={}", path_name(depth), h.src.name()), &det);
+            if let Some(h) = held {
+                let det = format!(
+                    "#{} destructed ({}) at seq {} inside the critical section of t{} which holds a Snapshot of it (from {}, made at seq {})",
+                    o, path_name(depth), seq, h.tid, h.src.name(), h.seq
+                );
+                sim().violation("C02", "destruct-under-snapshot", &format!("destruct-under-snapshot/{}/src={}", path_name(depth), h.src.name()), &det);
+            }
         }
         if depth > 0 {
             self.n_cascade_destructs += 1;
@@ -405,11 +418,23 @@ impl Shadow {
         ob.reclaim_epoch = epoch;
         // the edges of a destructed object stop being owners now
         let mut rel = Vec::new();
-        for c in cells {
+        let policy = crate::payload::POP_POLICY.load(std::sync::atomic::Ordering::Relaxed);
+        let mut edges = std::collections::VecDeque::new();
+        for (i, c) in cells.into_iter().enumerate() {
             let w = read_word(c);
             if let Some(ch) = self.obj_of_word(w) {
                 rel.push(ch);
+                if policy == 0 || (policy == 1 && i == 0) {
+                    edges.push_back((ch, self.cell_stamp.get(&c).copied().flatten()));
+                }
             }
+        }
+        if me < self.frames.len() {
+            let fr = &mut self.frames[me];
+            while matches!(fr.last(), Some((_, e)) if e.is_empty()) {
+                fr.pop();
+            }
+            fr.push((o, edges));
         }
         if let Some(ch) = self.obj_of_word(extra_word) {
             rel.push(ch);
@@ -478,14 +503,14 @@ impl Shadow {
                     Origin::NewIter(0) => "origin=new_many_iter0",
                     _ => "generic",
                 };
-                leaks.push(("leak-object", tag, format!("#{} never destructed after {} collection rounds (strong tokens {}, origin {:?})", o.id, rounds, o.strong, o.origin)));
+                leaks.push((if tag == "generic" { "C04" } else { "C04,C10" }, "leak-object", tag, format!("#{} never destructed after {} collection rounds (strong tokens {}, origin {:?})", o.id, rounds, o.strong, o.origin)));
             } else if o.dealloc != 1 {
                 let tag = if o.weak_many { "weak_many" } else { "generic" };
-                leaks.push(("leak-block", tag, format!("block of #{} never freed after {} collection rounds (weak tokens {})", o.id, rounds, o.weak)));
+                leaks.push((if tag == "generic" { "C04" } else { "C04,C10" }, "leak-block", tag, format!("block of #{} never freed after {} collection rounds (weak tokens {})", o.id, rounds, o.weak)));
             }
         }
-        for (k, tag, det) in leaks {
-            self.soft("C04", &format!("{}/{}", k, tag), det);
+        for (p, k, tag, det) in leaks {
+            self.soft(p, &format!("{}/{}", k, tag), det);
         }
         let lost: Vec<usize> = self.closures.iter().enumerate().filter(|(_, c)| c.executed == 0).map(|(i, _)| i).collect();
         if !lost.is_empty() {
@@ -497,7 +522,7 @@ impl Shadow {
         J::Arr(
             self.soft
                 .iter()
-                .map(|s| J::obj().set("prop", s.prop.as_str()).set("signature", s.signature.as_str()).set("detail", s.detail.as_str()).set("seq", s.seq))
+                .map(|s| J::obj().set("prop", s.prop.split(',').next().unwrap_or("")).set("props", J::Arr(s.prop.split(',').map(|p| J::Str(p.to_string())).collect())).set("signature", s.signature.as_str()).set("detail", s.detail.as_str()).set("seq", s.seq))
                 .collect(),
         )
     }
@@ -583,8 +608,27 @@ impl Monitor for RcMonitor {
             }
             site::NOT_DESTRUCTED_CAS => sim().probe("upgrade_token_path"),
             site::DISPOSE_CHILD_CAS => {
-                // the cascade is about to merge stamps into the child's count word (it succeeds
-                // unless the word changed since the load in the same loop iteration)
+                // the cascade is about to merge stamps into the child's count word; the CAS
+                // succeeds iff the word still equals what the loop iteration loaded
+                if read_state(addr) == a as u64 {
+                    if let Some(&ch) = sh.state2id.get(&addr) {
+                        let fr = &mut sh.frames[tid];
+                        while matches!(fr.last(), Some((_, e)) if e.is_empty()) {
+                            fr.pop();
+                        }
+                        if let Some((parent, edges)) = fr.last_mut() {
+                            if let Some(pos) = edges.iter().position(|e| e.0 == ch) {
+                                let (_, link) = edges.remove(pos).unwrap();
+                                let p = &sh.objs[*parent as usize];
+                                let (ps, pmin, ptaint) = (p.stamp_full, p.stamp_min, p.stamp_tainted);
+                                let c = &mut sh.objs[ch as usize];
+                                c.stamp_tainted = c.stamp_tainted || ptaint || link.is_none();
+                                c.stamp_full = [ps, link, c.stamp_full].iter().flatten().max().copied();
+                                c.stamp_min = [pmin, link, c.stamp_min].iter().flatten().min().copied();
+                            }
+                        }
+                    }
+                }
             }
             _ => {}
         }
@@ -613,6 +657,8 @@ impl Monitor for RcMonitor {
             kind::STAMP_WRITE => {
                 if let Some(&o) = sh.addr2id.get(&a) {
                     sh.objs[o as usize].stamp_full = Some(b as u64);
+                    sh.objs[o as usize].stamp_min = Some(b as u64);
+                    sh.objs[o as usize].stamp_tainted = false;
                 }
             }
             kind::DESTRUCT_ROOT => {
